@@ -427,7 +427,7 @@ class CommitXlsxExporter:
                             value = value.decode(UTF_8, "replace").encode(UTF_8)
                         if not isinstance(value, str):
                             value = value.decode(UTF_8)
-                        if value[0] == "=":
+                        if value.startswith("="):
                             value = " " + value
                         value = sub(ILLEGAL_XML_CHARACTER_PATTERN, " ", value)
                 cell_record_column_values.append(value)
